@@ -454,14 +454,21 @@ def run_unit(name, prop):
     return res
 
 
-# witness search for failed Verus obligations: registered per unit in registry.VERUS_WITNESS (native probes through
-# the public API or a sibling Kani harness); default: none => the VIOLATION line says no-failing-input-found.
+# witness search for failed Verus obligations: Verus gives no counterexample, so the failed contract's *sibling harness* (the same
+# postcondition, executable, in the hook module of the function) is run natively on seeded pseudo-random inputs of the real code.
 def witness_search(ob, seed):
     import registry
-    fn = registry.VERUS_WITNESS.get(ob.get("unit"))
-    if fn is None:
-        return {"reproduced": False, "detail": "no native witness search registered for unit %s; the failed obligation and the verifier output are in this file" % ob.get("unit")}
-    return fn(ob, seed)
+    fn = ob["id"].split(".")[-1]
+    cfg = registry.VERUS_WITNESS.get((ob.get("unit"), fn)) or registry.VERUS_WITNESS.get(("*", fn))
+    if cfg is None:
+        return {"reproduced": False, "detail": "no native witness search registered for %s; the failed obligation and the verifier output are in this file" % ob["id"]}
+    last = None
+    for (crate, modpath, harness, nbytes, tries) in cfg:
+        r = vlib.native_search(crate, modpath, harness, nbytes, seed, tries=tries)
+        last = {"crate": crate, "module": modpath, "harness": harness, "reproduced": r["reproduced"], "detail": r["detail"], "witness_bytes": r.get("witness"), "output_tail": r.get("output", "")[-800:]}
+        if r["reproduced"]:
+            return last
+    return last
 
 
 def rerun_native(nr):
